@@ -4,6 +4,7 @@ import (
 	"fmt"
 	"go/types"
 	"math/big"
+	"os"
 	"strings"
 
 	"golang.org/x/tools/go/ssa"
@@ -604,6 +605,19 @@ func (f *FuncVC) appendBuiltin(st *State, x *ssa.Call) *Val {
 			for k := int64(0); k < n.Int64(); k++ {
 				v := sel(sel(h, tref), arith("+", toff, num(k)))
 				arr = store(arr, arith("+", dstOff, arith("+", ln, num(k))), v)
+			}
+			if os.Getenv("GVC_NO_APPEND_LEMMA") == "" {
+				// name the resulting array and state the "old elements are kept"
+				// view directly (valid in both the in-place and the reallocating
+				// case), triggered by any read of the named array: spares the
+				// solver the case split on fits for every element read
+				an := f.sc.fresh("anew")
+				f.sc.declare(an, arraySort(1, sorts[i]))
+				f.fact(st, eq(an, arr))
+				q2 := f.sc.fresh("j")
+				f.fact(st, fmt.Sprintf("(forall ((%s Int)) (! (=> (and (<= %s %s) (< %s (+ %s %s))) (= (select %s %s) (select %s (+ %s (- %s %s))))) :pattern ((select %s %s))))",
+					q2, dstOff, q2, q2, dstOff, ln, an, q2, src, off, q2, dstOff, an, q2))
+				arr = an
 			}
 		} else {
 			fr := f.sc.fresh("aarr")
